@@ -8,7 +8,7 @@
    the correspondence run only. *)
 From Coq Require Import List NArith Bool.
 From PyFS Require Import Base.PyStr Base.Outcome FS.Tree FS.Ops FS.Ref FS.Agree FS.Mem FS.Wf
-     FS.RefineProofs FS.RefineWalkLemmasMk FS.RefineWalkLemmasBfs FS.RefineWalkNn FS.RefineWalk.
+     FS.RefineProofs FS.RefineWalkLemmasMk FS.RefineWalkLemmasBfs FS.RefineWalkNn FS.RefineWalk Path.PathModel Path.PathSpec FS.Wrap Sandbox.Sandbox FS.WrapLemmas FS.WrapProofs.
 Import ListNotations.
 
 Theorem C01_wf_initial : wf empty_dir.
@@ -113,3 +113,126 @@ Theorem C01_nn_preserved_covered :
   forall (o : op) (s : node), wf s -> nn s -> covered o = true -> nn (fst (mem_run o s)).
 Proof. exact @nn_preserved_covered. Qed.
 Print Assumptions C01_nn_preserved_covered.
+
+(* ---- compositions: SubFS (any nesting depth) and WrapFS over the MemoryFS model refine the
+        reference on the sub-tree and change nothing outside it. [sub_pre] / [wrap_pre] exclude
+        calls where the wrapper checks things in another order than MemoryFS (a NUL hidden by a
+        '..', an invalid mode together with a climbing path, copy without overwrite from an
+        invalid source): for those the call fails and changes nothing (…_excluded_call_fails),
+        and SubFS agrees with the reference on the normalised call (…_normalised). ---- *)
+Theorem C01_subfs_refines_ref :
+  forall (d : list str) (sub : node) (o : op) (s : node),
+       wf s ->
+       nn s ->
+       Forall good d ->
+       Forall (fun c : str => has_char nul c = false) d ->
+       lookup s d = Some sub ->
+       is_dir sub = true ->
+       covered o = true ->
+       sub_pre o = true -> sub_agree d (subfs_run (to_path true d) o s) (ref_run o sub) s = true.
+Proof. exact @subfs_refines_ref. Qed.
+Print Assumptions C01_subfs_refines_ref.
+
+Theorem C01_subfs_refines_ref_walk :
+  forall (d : list str) (sub : node) (o : op) (s : node),
+       wf s ->
+       nn s ->
+       Forall good d ->
+       Forall (fun c : str => has_char nul c = false) d ->
+       lookup s d = Some sub ->
+       is_dir sub = true ->
+       match o with
+       | OMakedirs p _ => exists cs : list str, rpath p = inl cs
+       | OMovedir a b _ _ | OCopydir a b _ _ =>
+           exists ca cb : list str,
+             rpath a = inl ca /\ rpath b = inl cb /\ list_prefix cb ca = false
+       | _ => False
+       end -> sub_agree d (subfs_run (to_path true d) o s) (ref_run o sub) s = true.
+Proof. exact @subfs_refines_ref_walk. Qed.
+Print Assumptions C01_subfs_refines_ref_walk.
+
+Theorem C01_subfs_wf_preserved :
+  forall (d : list str) (sub : node) (o : op) (s : node),
+       wf s ->
+       nn s ->
+       Forall good d ->
+       Forall (fun c : str => has_char nul c = false) d ->
+       lookup s d = Some sub ->
+       is_dir sub = true ->
+       covered o = true ->
+       wf (fst (subfs_run (to_path true d) o s)) /\
+       nn (fst (subfs_run (to_path true d) o s)) /\
+       (exists sub' : node,
+          lookup (fst (subfs_run (to_path true d) o s)) d = Some sub' /\ is_dir sub' = true).
+Proof. exact @subfs_wf_preserved. Qed.
+Print Assumptions C01_subfs_wf_preserved.
+
+Theorem C01_nested_subfs_refines_ref :
+  forall (subs : list (list str)) (sub : node) (o : op) (s : node),
+       subs <> [] ->
+       wf s ->
+       nn s ->
+       Forall (Forall good) subs ->
+       Forall (Forall (fun c : str => has_char nul c = false)) subs ->
+       lookup s (concat (rev subs)) = Some sub ->
+       is_dir sub = true ->
+       covered o = true ->
+       sub_pre o = true ->
+       sub_agree (concat (rev subs)) (nested_subfs_run (map (to_path true) subs) o s)
+         (ref_run o sub) s = true.
+Proof. exact @nested_subfs_refines_ref. Qed.
+Print Assumptions C01_nested_subfs_refines_ref.
+
+Theorem C01_nested_subfs_wf_preserved :
+  forall (subs : list (list str)) (sub : node) (o : op) (s : node),
+       subs <> [] ->
+       wf s ->
+       nn s ->
+       Forall (Forall good) subs ->
+       Forall (Forall (fun c : str => has_char nul c = false)) subs ->
+       lookup s (concat (rev subs)) = Some sub ->
+       is_dir sub = true ->
+       covered o = true ->
+       wf (fst (nested_subfs_run (map (to_path true) subs) o s)) /\
+       nn (fst (nested_subfs_run (map (to_path true) subs) o s)) /\
+       (exists sub' : node,
+          lookup (fst (nested_subfs_run (map (to_path true) subs) o s)) (concat (rev subs)) =
+          Some sub' /\ is_dir sub' = true).
+Proof. exact @nested_subfs_wf_preserved. Qed.
+Print Assumptions C01_nested_subfs_wf_preserved.
+
+Theorem C01_wrapfs_refines_ref :
+  forall (o : op) (s : node),
+       wf s ->
+       nn s -> covered o = true -> wrap_pre o = true -> agree (wrapfs_run o s) (ref_run o s) = true.
+Proof. exact @wrapfs_refines_ref. Qed.
+Print Assumptions C01_wrapfs_refines_ref.
+
+Theorem C01_subfs_excluded_call_fails :
+  forall (d : list str) (o : op) (s : node),
+       Forall good d ->
+       Forall (fun c : str => has_char nul c = false) d ->
+       covered o = true ->
+       g_pre o = false -> exists e : ecls, subfs_run (to_path true d) o s = (s, Err e).
+Proof. exact @subfs_excluded_call_fails. Qed.
+Print Assumptions C01_subfs_excluded_call_fails.
+
+Theorem C01_wrapfs_excluded_call_fails :
+  forall (o : op) (s : node),
+       covered o = true -> wrap_pre o = false -> exists e : ecls, wrapfs_run o s = (s, Err e).
+Proof. exact @wrapfs_excluded_call_fails. Qed.
+Print Assumptions C01_wrapfs_excluded_call_fails.
+
+Theorem C01_subfs_refines_ref_normalised :
+  forall (d : list str) (sub : node) (o : op) (s : node),
+       wf s ->
+       nn s ->
+       Forall good d ->
+       Forall (fun c : str => has_char nul c = false) d ->
+       lookup s d = Some sub ->
+       is_dir sub = true ->
+       covered o = true ->
+       g_pre o = true ->
+       sub_agree d (subfs_run (to_path true d) o s) (ref_run (nop o) sub) s = true.
+Proof. exact @subfs_refines_ref_normalised. Qed.
+Print Assumptions C01_subfs_refines_ref_normalised.
